@@ -44,6 +44,22 @@ CLAIMED["C01"] = {
     "design": "DESIGN.md section 3 C01",
 }
 
+CLAIMED["C04"] = {
+    "text": "Bounded model checking of the real FSArray.__setitem__/__getitem__/fsarray and the row kernel "
+            "FmtStr.setslice_with_length: one assignment from an ARBITRARY state satisfying the representation invariant "
+            "(rows are FmtStrs no longer than the width) - the inductive step for assignment histories. For each fixed row "
+            "structure z3 proves per path, for all widths, column bounds, row lengths, block row lengths and columns "
+            "(unbounded integers), that region cells show the block (blank where shorter), other cells are unchanged, "
+            "the height grows to the region, no row exceeds the width, reading back returns the cells, and that errors "
+            "are raised exactly for the stated reasons and leave every existing cell unchanged.",
+    "note": "Trusted: CPython, CrossHair + z3, SegStr domain; slicesize() is replaced by its integer meaning, justified by a "
+            "QF_FP lemma proved on every run (|d| <= 2**53). A block row longer than the region with nothing to its right "
+            "is left unspecified by the statement: both an error and compositing are accepted there. Negative indices, "
+            "open-ended row slices and numpy blocks are outside.",
+    "technique": TECH + "; SegStr LIA string domain, inductive step from a symbolic invariant state, QF_FP lemma for slicesize",
+    "design": "DESIGN.md section 3 C04",
+}
+
 NOT_YET = {}
 
 ALL = ["C%02d" % i for i in range(1, 21)]
